@@ -220,6 +220,17 @@ def load_known(prop_id):
     return known
 
 
+def known_budgets(known):
+    """a known finding may carry `budget=N`: at most N cases of that class per run are the known finding; a run
+    with more of them is something else (the class is a family of inputs on which the pinned code fails rarely)"""
+    out = {}
+    for c, desc in known:
+        m = re.match(r"budget=(\d+)\s", desc)
+        if m:
+            out[c] = int(m.group(1))
+    return out
+
+
 # ------------------------------------------------------------------- check
 
 def write_replay(prop_id, obj):
@@ -317,12 +328,24 @@ def check(prop_id, tier, seed):
                     if os.path.basename(f).startswith(pref):
                         kind = k
                 for item in v:
+                    if kind == "plane":
+                        # whole-plane checker: the ids of the cases it could not decide everywhere (never an alarm)
+                        inconclusive.append(item)
+                        continue
                     if kind == "curvedev":
                         # verified curve-deviation checker: (id, code, detail); code 0 = a range left undecided
                         # when the fuel ran out (never an alarm), 1 = parameters not ordered / not ending at 1,
                         # 2 = witness (range index, parameter num, den), 3 = vertex far from its curve point
                         if item[1] == 0:
                             inconclusive.append(item[0])
+                            continue
+                        if item[1] == 4:
+                            # beyond the tolerance but within the budget of the known finding K6: a known finding,
+                            # now with an exact witness
+                            failures.append({"what": "verified curve-deviation checker: a point of the curve (range %s, parameter %s/%s) is "
+                                                     "farther than the tolerance from the polyline, within the K6 budget" % tuple((list(item[2]) + ["?"] * 3)[:3]),
+                                             "class": "K6", "case": item[0],
+                                             "input": lookup_case(outdir, {"case": item}), "run": sub + "/" + profile})
                             continue
                         what = {1: "verified curve-deviation checker: the reported curve parameters are not ordered or do not end at 1",
                                 2: "verified curve-deviation checker: a point of the curve (range %s, parameter %s/%s) is farther than "
@@ -396,6 +419,15 @@ def check(prop_id, tier, seed):
         c = f.get("class")
         if c in known_classes:
             known_hits.setdefault(c, []).append(f)
+    for c, budget in known_budgets(known).items():
+        hits = known_hits.get(c, [])
+        if len(hits) > budget:
+            # more cases than the known finding accounts for: the excess is reported
+            for f in hits[budget:]:
+                f = dict(f)
+                f["what"] = "%s [class %s: %d cases this run, the known finding accounts for at most %d]" % (
+                    f.get("what", ""), c, len(hits), budget)
+                new_failures.append(f)
 
     lines = []
     status = 0
